@@ -198,7 +198,12 @@ let handle (fields : string list) : string =
     let es = List.map (fun t -> match split '#' t with
                                  | [ts; fr] -> { e_time = z_of_string ts; e_frame = parse_frame fr }
                                  | _ -> failwith "bad entry") (split ' ' entries) in
-    let (rs, file) = tlog_write_all (get_dialect dname) (nat_of_int (int_of_string budget)) [] es in
+    (* the oracle: a number n = the first n underlying writes succeed, all later ones fail;
+       or a string of 0/1 prefixed by 'o' = outcome of each underlying write in turn *)
+    let oracle = if String.length budget > 0 && budget.[0] = 'o'
+                 then List.init (String.length budget - 1) (fun i -> budget.[i + 1] = '1')
+                 else List.init (int_of_string budget) (fun _ -> true) in
+    let (rs, file) = tlog_write_all (get_dialect dname) oracle [] es in
     String.concat "," (List.map (function Ok _ -> "ok" | Err _ -> "err" | Panic -> "panic") rs) ^ "|" ^ hex_of_bytes file
   | ["tlogr"; dname; n; h] ->
     let cfg = { r_dialect = get_dialect dname; r_inkey = None } in
